@@ -334,6 +334,14 @@ Definition constraint_f1 (c : fconstraint) : bool :=
     end
   | FAtLeast k f l wb | FExactlyKInARow k f l wb =>
     (0 <? k) && isact f && (l <? nlevels fb f) && geom_ok wb && stride1 f
+  | FLatin fs =>
+    match fs with
+    | [] => false
+    | [_] => true
+    | f0 :: _ =>
+      forallb (fun f => isact f && negb (is_complex fb f)) fs && (sustain_of fb f0 =? 1) &&
+      match factor_preamble_size fb f0 with COk _ => true | CErr _ => false end
+    end
   | FSequential f =>
     isact f && negb (is_complex fb f) &&
     (* the preamble is a whole number of sustain groups *)
